@@ -162,12 +162,18 @@ structure WriteWrapper where
   err : Option IoErr
   deriving Repr
 
-/-- `self.w.write_all(bytes).map_err(|e| { self.err = Some(e); fmt::Error })` -/
-def WriteWrapper.writeBytes (w : WriteWrapper) (s : Bytes) : WriteWrapper × Bool :=
+/-- `if self.err.is_some() { return Err(fmt::Error) }` — once the sink failed nothing else is
+    handed to it — then `self.w.write_all(bytes).map_err(|e| { self.err = Some(e); fmt::Error })` -/
+def WriteWrapper.writeBytesOk (w : WriteWrapper) (s : Bytes) : WriteWrapper × Bool :=
   let r := writeAll w.script s
   match r.err with
   | none => ({ w with script := r.rest, calls := w.calls ++ r.calls }, true)
   | some e => ({ script := r.rest, calls := w.calls ++ r.calls, err := some e }, false)
+
+def WriteWrapper.writeBytes (w : WriteWrapper) (s : Bytes) : WriteWrapper × Bool :=
+  match w.err with
+  | some _ => (w, false)
+  | none => w.writeBytesOk s
 
 instance : FmtWrite WriteWrapper where
   writeStr := WriteWrapper.writeBytes
@@ -274,14 +280,22 @@ structure Outcome where
   result : Chk (Except Err Unit)
   deriving Repr
 
+/-- `WriteWrapper::check` / `take_err` at the API boundary: the held I/O error wins over whatever
+    the evaluation returned, also over `Ok` (the error may have been dropped by user code) -/
+def WriteWrapper.finish (w : WriteWrapper) : Chk (Except Err Unit) → Chk (Except Err Unit)
+  | .ok (.error e) => .ok (.error (w.takeErr e))
+  | .ok (.ok ()) =>
+    match w.err with
+    | some io => .ok (.error (.writeFailure (some io)))
+    | none => .ok (.ok ())
+  | .panic => .panic
+
 /-- `Template::render_captured_to` / `State::render_block_to_write`:
-    `Output::new(&mut WriteWrapper { w, err: None })`, evaluate, `.map_err(|e| wrapper.take_err(e))` -/
+    `Output::new(&mut WriteWrapper { w, err: None })`, evaluate, then
+    `Ok(x) => wrapper.check(x)`, `Err(e) => Err(wrapper.take_err(e))` -/
 def renderTo (ops : List Op) (script : List Beh) : Outcome :=
   let r := run ops (St.init (⟨script, [], none⟩ : WriteWrapper))
-  ⟨r.1.out.w.calls,
-   match r.2 with
-   | .ok (.error e) => .ok (.error (r.1.out.w.takeErr e))
-   | x => x⟩
+  ⟨r.1.out.w.calls, r.1.out.w.finish r.2⟩
 
 structure StrOutcome where
   buf : Bytes        -- content of the `String` when the evaluation stopped
@@ -299,6 +313,45 @@ def renderNull (ops : List Op) : Chk (Except Err Unit) :=
 
 /-- the chunks the VM hands to the base writer when nothing fails -/
 def chunksOf (ops : List Op) : List Chunk := (run ops (St.init ([] : List Chunk))).1.out.w
+
+/-! ## user code that ignores the result of a write
+
+A custom formatter or an `Object::render` may drop the `fmt::Error` of a write and go on (writing
+more, returning `Ok`, returning some other error).  `UOp.writeIgn` is such a write: the evaluation
+does not stop at it. -/
+
+inductive UOp where
+  | strict (o : Op)
+  | writeIgn (c : Chunk)
+  deriving DecidableEq, Repr
+
+def stepU {B : Type} [FmtWrite B] (u : UOp) (st : St B) : St B × Halt :=
+  match u with
+  | .strict o => step o st
+  | .writeIgn c => ({ st with out := (st.out.write c).1 }, none)
+
+def runU {B : Type} [FmtWrite B] : List UOp → St B → St B × Chk (Except Err Unit)
+  | [], st => (st, .ok (.ok ()))
+  | u :: us, st =>
+    match stepU u st with
+    | (st', none) => runU us st'
+    | (st', some (.ok e)) => (st', .ok (.error e))
+    | (st', some .panic) => (st', .panic)
+
+/-- the same operations with well-behaved user code (every write result is respected) -/
+def strictU : List UOp → List Op
+  | [] => []
+  | .strict o :: us => o :: strictU us
+  | .writeIgn c :: us => .write c :: strictU us
+
+def renderToU (uops : List UOp) (script : List Beh) : Outcome :=
+  let r := runU uops (St.init (⟨script, [], none⟩ : WriteWrapper))
+  ⟨r.1.out.w.calls, r.1.out.w.finish r.2⟩
+
+/-- `Track` in `DynObject::render_guarded`: `failed |= rv.is_err()` over the results of the
+    object's writes (`true` = the write succeeded) -/
+def trackFailed (results : List Bool) : Bool :=
+  results.foldl (fun failed ok => failed || !ok) false
 
 /-! ## specification helpers -/
 
@@ -392,10 +445,7 @@ def flatten : Prog → List Op
 /-- the writer API on a structured program -/
 def renderProgTo (p : Prog) (script : List Beh) : Outcome :=
   let r := exec p (⟨(⟨script, [], none⟩ : WriteWrapper), []⟩ : Out WriteWrapper)
-  ⟨r.1.w.calls,
-   match r.2 with
-   | .ok (.error e) => .ok (.error (r.1.w.takeErr e))
-   | x => x⟩
+  ⟨r.1.w.calls, r.1.w.finish r.2⟩
 
 /-- the plain render of a structured program -/
 def renderProgString (p : Prog) : StrOutcome :=
